@@ -239,7 +239,13 @@ class PseudoOperand(Operand):
             elif self.value.hex_len() == 2:
                 self.value = DirectNumericValue(self.value.int)
 
+    def address_digits(self):
+        return 2 if self.instruction.is_multi_byte else 4
+
     def resolve_symbols(self, symbol_table):
+        is_data = self.instruction.is_multi_byte or self.instruction.is_multi_word
+        if is_data and (self.value.is_symbol() or self.value.is_expression()):
+            self.value = self.value.resolve(symbol_table)
         return self
 
     def translate(self):
@@ -249,7 +255,7 @@ class PseudoOperand(Operand):
                 size=self.value.byte_len(),
                 max_size=self.value.byte_len()
             ) if self.value.is_multi_byte() else CodePackage(
-                additional=fit_value(self.value, 2),
+                additional=fit_value(self.value, 2) if self.value.is_numeric() else self.value,
                 size=1,
                 max_size=1
             )
@@ -260,7 +266,7 @@ class PseudoOperand(Operand):
                 size=self.value.byte_len(),
                 max_size=self.value.byte_len()
             ) if self.value.is_multi_word() else CodePackage(
-                additional=fit_value(self.value, 4),
+                additional=fit_value(self.value, 4) if self.value.is_numeric() else self.value,
                 size=2,
                 max_size=2
             )
